@@ -469,3 +469,54 @@ func checkIniAddOption(c *Ctx, n int, prop string) {
 		c.Check("an-entry-naming-an-option-added-by-the-program-means-what-the-flag-means", got == want, prop+":ini-addoption", in, got, want)
 	}
 }
+
+// checkC12AddOption: an option added with Group.AddOption — no struct field behind it — is written under a name the
+// reader knows it by; a fresh parser over the same declaration (the same option added) reads every written value.
+func checkC12AddOption(c *Ctx, n int) {
+	r := c.Rng
+	for i := 0; i < n; i++ {
+		type optsT struct {
+			Verbose bool `short:"v" long:"verbose"`
+			G       struct {
+				X string `long:"x"`
+			} `group:"G" namespace:"g"`
+		}
+		mk := func(port *int, name *string) *flags.Parser {
+			var o optsT
+			p := flags.NewParser(&o, flags.None)
+			p.Command.Group.Find("Application Options").AddOption(&flags.Option{LongName: "port", ShortName: 'p', Description: "the port"}, port)
+			p.Command.Group.Find("G").AddOption(&flags.Option{LongName: "name", Description: "a name"}, name)
+			return p
+		}
+		var port int
+		var name string
+		val := []string{"x y", " lead", "é", "plain", "with \"quote\""}[r.Intn(5)]
+		portV := []string{"8080", "0", "-3"}[r.Intn(3)]
+		bits := flags.IniOptions(r.Intn(8) * 2)
+		var text bytes.Buffer
+		var err1, err2 error
+		var port2 int
+		var name2 string
+		pan := safe(func() {
+			p := mk(&port, &name)
+			_, err1 = p.ParseArgs([]string{"-v", "--port=" + portV, "--g.name=" + val})
+			flags.NewIniParser(p).Write(&text, bits)
+			p2 := mk(&port2, &name2)
+			err2 = flags.NewIniParser(p2).Parse(strings.NewReader(text.String()))
+			if err2 == nil {
+				_, err2 = p2.ParseArgs(nil)
+			}
+		})
+		c.R.Evaluations++
+		got := fmt.Sprintf("panic=%v parse=%v read=%v port=%d name=%q", pan, err1, err2, port2, name2)
+		want := fmt.Sprintf("panic=<nil> parse=<nil> read=<nil> port=%s name=%q", portV, val)
+		if portV == "0" && bits&flags.IniIncludeDefaults == 0 {
+			// (a value that equals the type's zero value is omitted as a default: it is zero again)
+			want = fmt.Sprintf("panic=<nil> parse=<nil> read=<nil> port=0 name=%q", val)
+		}
+		c.Distinct(fmt.Sprintf("c12addoption|%s|%s|%d", val, portV, int(bits)))
+		c.Class(fmt.Sprintf("c12/addoption: write-options=%d", int(bits)))
+		in := map[string]interface{}{"declaration": "AddOption(LongName port, ShortName p) on the top group, AddOption(LongName name) on a group with namespace g", "argv": []string{"-v", "--port=" + portV, "--g.name=" + val}, "ini_options": int(bits), "written_text": text.String()}
+		c.Check("round-trip-reproduces-value-of-an-option-added-by-the-program", got == want, "C12:addoption", in, got, want)
+	}
+}
